@@ -23,7 +23,7 @@ CLAIMED = {
        "order, losses, quits and Close run against the real client; each SubscribeError is checked against the SUBACK sent for that request's "
        "identifier and every request must have returned after the closing epilogue.",
   design="6/C11", technique="Lean 4 proof (transaction-table lemmas) + differential correspondence with concurrent calls parked by the harness",
-  note="partial: the Ping slot hand-over race (F7) needs preemption between two statements and is a known finding; startTx termination within its fuel (pigeonhole) is not proved"),
+  note="partial: requests are interleaved only where the harness can park a goroutine (lockWrite, conn.Write, the response wait); preemption between two statements of one call is not explored; startTx termination within its fuel (pigeonhole) is not proved"),
  "C12": dict(
   text="Lean 4 theorems over Model.Sync for every interleaving and any number of concurrent Close/Disconnect calls: Online and Offline are "
        "never both released, after the semaphores are closed the client is offline for good (stable under every step), at most one closer is "
